@@ -4,9 +4,12 @@ from __future__ import annotations
 
 import ast
 
-from ..astutil import call_name, calls_in, dotted, own_exprs, unparse, walk_local
+from ..astutil import ancestors, call_name, calls_in, dotted, own_exprs, unparse, walk_local
 from ..report import Registry, sub
 from ._helpers_rules_b import ordinal_keys
+from ._helpers_str_v import (
+    Variant, _block_of, _is_empty_literal, bind_call, filter_atoms, fmt_atoms, resolve_name, root_base, shape_of,
+)
 
 R = Registry(
     "C55",
@@ -19,10 +22,20 @@ R = Registry(
         "returning cython.compiled, every name imported from a *_cy module anywhere in the package is defined there in "
         "both build modes; C-integer typed locals only receive len()/id()/literal/range/C-typed values, C-integer typed "
         "parameters of Python-visible callables reach a builtin that performs the same conversion on every path, "
-        "`-> cython.bint` callables return boolean expressions (exceptions listed with reasons)."
+        "`-> cython.bint` callables return boolean expressions (exceptions listed with reasons); for every function that "
+        "exists in two build variants (two defs in the arms of one `if cython.compiled:`, or a body branching on it) a "
+        "feature vector of the two variants agrees: container kind of the returned values and whether a PARAMETER ITSELF "
+        "may be returned, stores into / mutator calls on parameters (with the stored value), raised exception names and "
+        "asserted parameters, every application of a non-builtin callable (callee, arguments, guard atoms that depend on "
+        "the passed values, other guard atoms and loop domain), which parameters have every element hashed on every "
+        "returning path; where a variant iterates an arm-private parameter (read by that variant only) the comparison is "
+        "made per call site after substituting how the caller computes it (len(V) / indexes of V where <filter>)."
     ),
     not_decided=(
-        "behavioural equality of the two builds; whether the shipped .so files were built from the current source "
+        "behavioural equality of the two builds beyond the feature vector (arithmetic, order of application, positions "
+        "written, equivalence of a compiled-only special method such as BaseRow.__getattribute__ / anon_map.__getitem__ "
+        "with the pure-Python fallback); helpers called by one variant only are not followed (analysis error, not a "
+        "verdict); whether the shipped .so files were built from the current source "
         "(Cython is not installed; neither recompilation nor staleness can be decided here)."
     ),
 )
@@ -467,6 +480,303 @@ def _enclosing_func(pm, node):
     return cur
 
 
+# ---------------------------------------------------------------------- R4 / R5: the two build variants of a function
+FUNC = (ast.FunctionDef, ast.AsyncFunctionDef)
+
+
+def _declaration_only(st) -> bool:
+    return isinstance(st, FUNC + (ast.ClassDef, ast.Import, ast.ImportFrom, ast.Pass)) or (isinstance(st, ast.AnnAssign) and st.value is None) \
+        or (isinstance(st, ast.Expr) and isinstance(st.value, ast.Constant))
+
+
+def _arm_pairs(m):
+    """[(key, compiled source function, pure source function, trivial)]: every function that exists in two build
+    variants -- two defs of one name in the arms of one `if cython.compiled:` (any level), or one function whose own
+    body branches on `cython.compiled` (statement or conditional expression)."""
+    pm = m.parents()
+    out, seen = [], set()
+    for site, scope in _sites(m):
+        comp_first = _is_compiled_test(site.test)
+        arms = {comp_first: site.body, (not comp_first): site.orelse}
+        b = {pol: _bound_top(arms[pol]) for pol in (True, False)}
+        for nm in sorted(set(b[True]) & set(b[False])):
+            if isinstance(b[True][nm], FUNC) and isinstance(b[False][nm], FUNC):
+                out.append((f"{m.relpath}::{_qual(pm, b[True][nm])}", b[True][nm], b[False][nm], False))
+        if isinstance(scope, FUNC) and id(scope) not in seen and not all(_declaration_only(st) for st in site.body + site.orelse):
+            seen.add(id(scope))
+            out.append((f"{m.relpath}::{_qual(pm, scope)}", scope, scope, False))
+    for fn in ast.walk(m.tree):
+        if isinstance(fn, FUNC) and id(fn) not in seen and any(
+                isinstance(n, ast.IfExp) and _is_compiled_test(n.test) is not None for st in fn.body for n in [st, *walk_local(st)]
+                if not isinstance(st, FUNC + (ast.ClassDef,))):
+            seen.add(id(fn))
+            out.append((f"{m.relpath}::{_qual(pm, fn)}", fn, fn, False))
+    out.sort(key=lambda x: x[1].lineno)
+    return out
+
+
+LEGEND = "  [<=p> the parameter p itself, <p> all of its content, <p[]> an element of it, <p#> its size, <p~> a value computed from it]"
+
+
+def _opaque(tok) -> bool:
+    tok = str(tok)
+    return tok.startswith("?") or "?" in tok.split("(")[0] or tok.startswith(("free:", "def:", "attr", "elem", "local:", "iter?", "range?", "while"))
+
+
+def _variants(ctx, key, fc, fp):
+    return Variant(ctx, fc, True, key), Variant(ctx, fp, False, key)
+
+
+def _apps_by_callee(v):
+    d = {}
+    for a in v.applications():
+        d.setdefault(a.callee, []).append(a)
+    return d
+
+
+def _private(vc, vp):
+    rc, rp = vc.param_reads(), vp.param_reads()
+    return rc - rp, rp - rc
+
+
+def _loops_private(apps, priv) -> bool:
+    """does a loop around one of the applications depend on the caller: iterates an arm-private parameter, or runs
+    over range(<parameter>)?"""
+    return any(isinstance(x, frozenset) and ({root_base(r) for r in x} & priv or k == "range") for a in apps for k, x in a.loops)
+
+
+def _fmt_loops(loops) -> str:
+    if not loops:
+        return "once"
+    return " / ".join(f"{k} {'<' + '+'.join(sorted(x)) + '>' if isinstance(x, frozenset) else x}" for k, x in loops)
+
+
+def _sibling_note(ctx, name, skip_key):
+    """same-named split functions of the other *_cy modules: under which value-dependent conditions they apply a
+    caller-supplied callable (diagnostic only: tells which arm left the family)"""
+    notes = []
+    for m in _cy_modules(ctx):
+        for key, fc, fp, _t in _arm_pairs(m):
+            if key == skip_key or key.rsplit("::", 1)[1].rsplit(".", 1)[-1] != name:
+                continue
+            vc, vp = _variants(ctx, key, fc, fp)
+            desc = []
+            for lab, v in (("compiled", vc), ("pure", vp)):
+                gs = {fmt_atoms(a.arg_guards) for a in v.applications() if a.derived}
+                desc.append(f"{lab}: {sorted(gs)}")
+            notes.append(f"{key} ({'; '.join(desc)})")
+    return ("; same-named split function(s): " + ", ".join(notes)) if notes else ""
+
+
+@R.rule("C55-R4", floor=29, template="T-SIBLING",
+        desc="every function that exists in two build variants (two defs in the arms of `if cython.compiled:`, or a body "
+             "branching on it): both variants return the same container kinds and may return a PARAMETER ITSELF in the same "
+             "cases, mutate the same parameters the same way, raise/assert the same, apply the same caller-supplied callables "
+             "to the same arguments under the same value-dependent guards (and, where no arm-private parameter is involved, "
+             "over the same loops / other guards), hash every element of the same parameters on every returning path")
+def r4(ctx):
+    for m in _cy_modules(ctx):
+        for key, fc, fp, _t in _arm_pairs(m):
+            loc = f"{m.path}:{fp.lineno}"
+            ctx.functions_analysed.add(key)
+            vc, vp = _variants(ctx, key, fc, fp)
+            name = key.rsplit("::", 1)[1].rsplit(".", 1)[-1]
+            # ---- returns
+            kc, ac = vc.returns()
+            kp, ap = vp.returns()
+            k = f"{key}:arms:returns"
+            if ac != ap:
+                only = [("compiled", ac - ap, "pure-Python"), ("pure-Python", ap - ac, "compiled")]
+                msg = "; ".join(f"the {who} variant may return its argument `{'`, `'.join(sorted(ps))}` itself (an alias the caller can observe "
+                                f"and mutate through) where the {other} variant only returns objects it built" for who, ps, other in only if ps)
+                ctx.violation(k, msg, loc)
+            elif kc != kp:
+                diff = kc ^ kp
+                ctx.require(not any(_opaque(t) for t in diff), f"{k}: return kinds {sorted(kc)} vs {sorted(kp)} cannot be compared (opaque value)")
+                ctx.violation(k, f"the compiled variant returns {sorted(kc)}, the pure-Python variant returns {sorted(kp)}", loc)
+            else:
+                ctx.ok(k, f"both variants return {sorted(kc)}; parameters returned as such: {sorted(ac) or 'none'}")
+            # ---- mutations of parameters
+            mc, mp = vc.mutations(), vp.mutations()
+            k = f"{key}:arms:mutations"
+            if mc != mp:
+                diff = mc ^ mp
+                ctx.require(not any(_opaque(v) for _p, _w, v in diff if v), f"{k}: stored values {sorted(diff)} cannot be compared (opaque value)")
+                ctx.violation(k, f"parameter mutations differ: only compiled {sorted(mc - mp)}, only pure-Python {sorted(mp - mc)} "
+                                 f"(parameter, kind of store, stored value)", loc)
+            else:
+                ctx.ok(k, f"both variants perform {sorted(mc) or 'no store into a parameter'}", nontrivial=bool(mc))
+            # ---- raise / assert
+            rc, rp = vc.raises(), vp.raises()
+            ctx.check(rc == rp, f"{key}:arms:raises",
+                      f"compiled variant raises {sorted(rc[0])} / asserts over {list(rc[1])}; pure-Python variant raises {sorted(rp[0])} / asserts over {list(rp[1])}",
+                      f"both raise {sorted(rc[0]) or 'nothing explicitly'}, assert over {list(rc[1]) or 'nothing'}", loc, nontrivial=bool(rc[0] or rc[1]))
+            # ---- applications of callables
+            dc, dp = _apps_by_callee(vc), _apps_by_callee(vp)
+            privc, privp = _private(vc, vp)
+            priv = privc | privp
+            k = f"{key}:arms:applications"
+            problems, deferred = [], False
+            for callee in sorted(set(dc) | set(dp)):
+                ca, pa = dc.get(callee, []), dp.get(callee, [])
+                if not ca or not pa:
+                    a = (ca or pa)[0]
+                    ctx.require(a.derived and "+" not in callee, f"{k}: only the {'compiled' if ca else 'pure-Python'} variant calls `{callee}` ({a.text}); "
+                                                                 f"a helper known to one variant only / a callee of mixed origin cannot be compared")
+                    problems.append(f"only the {'compiled' if ca else 'pure-Python'} variant calls the caller-supplied callable {callee} ({a.text})")
+                    continue
+                vc_set = {(a.args, a.arg_guards) for a in ca}
+                vp_set = {(a.args, a.arg_guards) for a in pa}
+                if vc_set != vp_set:
+                    fm = lambda s: sorted(f"{callee}({', '.join(args)}) when {fmt_atoms(g)}" for args, g in s)  # noqa: E731
+                    problems.append(f"the compiled variant applies {fm(vc_set)}, the pure-Python variant applies {fm(vp_set)}: whether/with what the callable "
+                                    f"is applied depends on the passed value differently in the two builds" + (_sibling_note(ctx, name, key) if ca[0].derived else ""))
+                    continue
+                if _loops_private(ca + pa, priv):
+                    deferred = True
+                    continue
+                gc, gp = {a.other_guards for a in ca}, {a.other_guards for a in pa}
+                if gc != gp:
+                    fm = lambda s: sorted(fmt_atoms(g) for g in s)  # noqa: E731
+                    problems.append(f"{callee} is applied when {fm(gc)} by the compiled variant but when {fm(gp)} by the pure-Python variant")
+                    continue
+                lc, lp = {a.loops for a in ca}, {a.loops for a in pa}
+                # which elements a loop visits is value-level: a different loop shape is not a verdict
+                ctx.require(lc == lp, f"{k}: the loops around `{callee}` differ in shape and cannot be compared: compiled "
+                                      f"{sorted(_fmt_loops(x) for x in lc)}, pure-Python {sorted(_fmt_loops(x) for x in lp)}")
+            n_apps = sum(len(v) for v in dc.values()) + sum(len(v) for v in dp.values())
+            ctx.check(not problems, k, "; ".join(problems) + LEGEND,
+                      f"{n_apps} application(s) of {sorted(set(dc) | set(dp)) or 'no non-builtin callable'} agree"
+                      + (" (loop domain depends on what the caller passes: decided per call site by C55-R5)" if deferred else ""), loc, nontrivial=bool(n_apps))
+            # ---- hashing (TypeError for unhashable elements)
+            hc, hp = vc.hashing(), vp.hashing()
+            for p in sorted(set(hc) | set(hp)):
+                k = f"{key}:arms:hashes[{p}]"
+                sc, sp = hc.get(p, ("never", None)), hp.get(p, ("never", None))
+                ctx.require("unknown" not in (sc[0], sp[0]), f"{k}: a hashing operation over `{p}` has a shape that is not understood")
+                if sc[0] == sp[0]:
+                    ctx.ok(k, f"both variants hash every element of `{p}`: {sc[0]}")
+                else:
+                    w = sc[1] or sp[1]
+                    ctx.violation(k, f"every element of `{p}` is hashed (TypeError for an unhashable element) {sc[0].replace('-', ' ')} in the compiled variant "
+                                     f"but {sp[0].replace('-', ' ')} in the pure-Python variant", loc, w)
+
+
+def _calls_of(m, name, exclude):
+    pm = m.parents()
+    out = []
+    for n in ast.walk(m.tree):
+        if isinstance(n, ast.Call) and isinstance(n.func, ast.Name) and n.func.id == name:
+            if any(a is x for a in ancestors(pm, n) for x in exclude):
+                continue
+            out.append(n)
+    out.sort(key=lambda c: (c.lineno, c.col_offset))
+    return out
+
+
+def _resolve_private(ctx, m, call, actual, q, shared_of):
+    """Selection contributed at this call site by the arm-private parameter `q`: (root parameter, filter atoms).
+    `shared_of`: {caller variable name: shared parameter it is passed for}."""
+    pm = m.parents()
+    what = f"argument for `{q}` at line {call.lineno}"
+    e = actual.get(q)
+    ctx.require(e is not None, f"{what}: not passed")
+    shapes = []
+    sh = shape_of(e)
+    if sh[0] == "name":
+        scope, binds = resolve_name(pm, call, sh[1])
+        ctx.require(scope is not None and binds and all(v is not None for v, _st in binds), f"{what}: `{sh[1]}` is not bound by plain assignments in an enclosing function")
+        shapes = [(shape_of(v), st, scope) for v, st in binds]
+    else:
+        shapes = [(sh, None, None)]
+    results = set()
+    for sh, st, scope in shapes:
+        ctx.require(sh[0] in ("len", "indices_where", "empty"), f"{what}: value `{sh[-1]}` is not len(V) / indexes of V where ... / empty")
+        if sh[0] == "empty":
+            # consistent only with an equally empty V bound in the same block
+            ctx.require(st is not None, f"{what}: literal empty argument")
+            blk = _block_of(pm, st)
+            ok = any(isinstance(s2, ast.Assign) and _is_empty_literal(s2.value) and any(isinstance(t, ast.Name) and t.id in shared_of for t in s2.targets)
+                     for s2 in (blk or []))
+            ctx.require(ok, f"{what}: bound to an empty literal in a block that does not bind the processed sequence to an empty literal as well")
+            continue
+        V = sh[1]
+        ctx.require(V in shared_of, f"{what}: computed from `{V}`, which is not what the call passes for a parameter both variants read")
+        # V must be bound before this value is computed, never after
+        if st is not None:
+            vscope, vb = resolve_name(pm, call, V)
+            ctx.require(vscope is scope, f"{what}: `{V}` and `{sh and q}` are bound in different scopes")
+            if sh[0] == "len":
+                ctx.require(all(s2.lineno < st.lineno for _v, s2 in vb), f"{what}: `{V}` is re-bound after its length is taken")
+            else:
+                blk = _block_of(pm, st) or []
+                before = [s2 for _v, s2 in vb if any(s2 is x for x in blk) and s2.lineno < st.lineno]
+                after = [s2 for _v, s2 in vb if any(s2 is x for x in blk) and s2.lineno > st.lineno]
+                ctx.require(before and not after, f"{what}: `{V}` is not bound just before its index list in the same block")
+        s = shared_of[V]
+        if sh[0] == "len":
+            results.add((s, frozenset()))
+        else:
+            results.add((s, filter_atoms(sh[2], sh[3], "<" + s + "[]>")))
+    ctx.require(len(results) == 1, f"{what}: bound to values of different shapes {sorted(map(str, results))}")
+    return results.pop()
+
+
+@R.rule("C55-R5", floor=2, template="T-TABLE",
+        desc="split functions with arm-private parameters (read by one build variant only): at every call site the loop "
+             "domain + non-value guards of each application, after substituting how the caller computes the private "
+             "arguments (len(V) / indexes of V where <filter>), select the same elements in both variants")
+def r5(ctx):
+    for m in _cy_modules(ctx):
+        pm = m.parents()
+        for key, fc, fp, _t in _arm_pairs(m):
+            vc, vp = _variants(ctx, key, fc, fp)
+            privc, privp = _private(vc, vp)
+            priv = privc | privp
+            dc, dp = _apps_by_callee(vc), _apps_by_callee(vp)
+            todo = [c for c in sorted(set(dc) & set(dp)) if _loops_private(dc[c] + dp[c], priv)]
+            if not todo:
+                continue
+            ctx.functions_analysed.add(key)
+            calls = _calls_of(m, fc.name, (fc, fp))
+            ctx.require(calls, f"{key}: has arm-private parameters {sorted(priv)} but no call site was found in {m.relpath}")
+            keyed = ordinal_keys(calls, lambda c: f"{key}:arms:selection@{_qual(pm, pm.get(c)) or '<module>'}")
+            for ckey, call in keyed:
+                actual = bind_call(call, fp)
+                ctx.require(actual is not None, f"{ckey}: call uses */** arguments")
+                shared = (set(vc.params) & set(vp.params)) - priv
+                shared_of = {a.id: p for p, a in actual.items() if p in shared and isinstance(a, ast.Name)}
+                problems = []
+                for callee in todo:
+                    sel = {}
+                    for lab, apps in (("compiled", dc[callee]), ("pure-Python", dp[callee])):
+                        s = set()
+                        for a in apps:
+                            loops, extra = [], set()
+                            for kind, x in a.loops:
+                                if isinstance(x, frozenset) and ({root_base(r) for r in x} & priv or kind == "range"):
+                                    ctx.require(len(x) == 1 and kind in ("range", "over") and all(r == root_base(r) for r in x),
+                                                f"{ckey}: loop `{kind} {sorted(x)}` is not a plain iteration of one parameter")
+                                    root, flt = _resolve_private(ctx, m, call, actual, next(iter(x)), shared_of)
+                                    loops.append(("over", frozenset([root])))
+                                    extra |= flt
+                                else:
+                                    ctx.require(isinstance(x, frozenset), f"{ckey}: loop `{kind} {x}` around {callee} is not understood")
+                                    loops.append(("over", x) if kind == "over" else (kind, x))
+                            s.add((tuple(loops), frozenset(a.other_guards | extra)))
+                        sel[lab] = s
+                    gc, gp = {g for _l, g in sel["compiled"]}, {g for _l, g in sel["pure-Python"]}
+                    fm = lambda s: sorted(f"[{_fmt_loops(loops)}] where {fmt_atoms(g)}" for loops, g in s)  # noqa: E731
+                    if gc != gp:
+                        problems.append(f"with the arguments of this call the compiled variant applies {callee} {fm(sel['compiled'])} but the pure-Python "
+                                        f"variant {fm(sel['pure-Python'])}: the two builds select different elements")
+                        continue
+                    ctx.require({x for x, _g in sel["compiled"]} == {x for x, _g in sel["pure-Python"]},
+                                f"{ckey}: the loops around `{callee}` differ in shape and cannot be compared: {fm(sel['compiled'])} vs {fm(sel['pure-Python'])}")
+                ctx.check(not problems, ckey, "; ".join(problems) + LEGEND,
+                          f"arm-private {sorted(priv)} resolved through the caller: both variants select the same elements for {todo}", f"{m.path}:{call.lineno}")
+
+
 # ---------------------------------------------------------------------- self-test battery
 IMM = "util/_immutabledict_cy.py"
 COLL = "util/_collections_cy.py"
@@ -500,8 +810,10 @@ R.mutant("name-defined-only-compiled-but-imported", "engine/_processors_cy.py",
              "if cython.compiled:\n\n    @cython.annotation_typing(False)\n    def to_str(value: Any) -> Optional[str]:\n        if value is None:\n            return None\n        return str(value)\n"), "C55-R2")
 R.mutant("local-narrowed-from-element", EUT,
          sub("def tuplegetter(*indexes: int) -> _TupleGetterType:\n    max_index: int\n", "def tuplegetter(*indexes: int) -> _TupleGetterType:\n    max_index: cython.Py_ssize_t\n"), "C55-R3")
-R.mutant("proc-size-from-argument", RES,
-         sub("        proc_size: cython.Py_ssize_t = len(processors)", "        proc_size: cython.Py_ssize_t = processors[0]"), "C55-R3")
+# (was `proc_size = processors[0]`: since C55-R5 that edit is an unknown shape for the arm-private parameter -> exit 2
+# before R3 reports; the same narrowing is exercised on a local no split function depends on)
+R.mutant("flag-narrowed-from-attribute", RES,
+         sub("        flag: cython.char = _FLAG_SIMPLE\n", "        flag: cython.char = real_result._source_supports_scalars\n"), "C55-R3")
 R.mutant("bint-returns-object", COLL,
          sub("        return self._members.keys() <= other._members.keys()", "        return other._members or self._members"), "C55-R3")
 R.mutant("new-ctyped-public-param", COLL,
@@ -517,3 +829,56 @@ R.mutant("benign-rename-loop-index", EUT,
 R.mutant("benign-extra-helper-both-arms", SQLU,
          sub("if cython.compiled:\n    from cython.cimports.sqlalchemy.util._collections_cy import _get_id\nelse:\n    _get_id = id\n",
              "if cython.compiled:\n    from cython.cimports.sqlalchemy.util._collections_cy import _get_id\n\n    _MODE = 1\nelse:\n    _get_id = id\n    _MODE = 0\n"), None)
+
+# ---- R4 / R5 (str-v): the two build variants of a function
+_PURE_APPLY = "        res = list(data)\n        for i in proc_valid:\n            res[i] = proc[i](res[i])\n        return tuple(res)\n"
+R.mutant("seed-pure-apply-processors-skips-none", RES,
+         sub(_PURE_APPLY,
+             "        res = list(data)\n        for i in proc_valid:\n            value = res[i]\n            if value is not None:\n"
+             "                res[i] = proc[i](value)\n        return tuple(res)\n"), "C55-R4")
+R.mutant("seed-pure-unique-list-returns-argument", COLL,
+         sub("    else:\n        return list(dict.fromkeys(seq))\n",
+             "    else:\n        if type(seq) is list and len(seq) < 2:\n            return seq\n        return list(dict.fromkeys(seq))\n"), "C55-R4")
+R.mutant("pure-unique-list-short-input-not-hashed", COLL,
+         sub("    else:\n        return list(dict.fromkeys(seq))\n",
+             "    else:\n        if type(seq) is list and len(seq) < 2:\n            return list(seq)\n        return list(dict.fromkeys(seq))\n"), "C55-R4")
+R.mutant("pure-row-apply-processors-in-place", ROW,
+         sub("        res: List[Any] = list(data)\n        proc_size = len(proc)\n",
+             "        res: List[Any] = data if type(data) is list else list(data)\n        proc_size = len(proc)\n"), "C55-R4")
+R.mutant("pure-many-rows-returns-tuple", RES,
+         sub("                return [single_row(row) for row in rows]\n", "                return tuple(single_row(row) for row in rows)\n"), "C55-R4")
+R.mutant("pure-set-attrs-swaps-values", ROW,
+         sub('            object.__setattr__(self, "_key_to_index", key_to_index)\n            object.__setattr__(self, "_data", data)\n',
+             '            object.__setattr__(self, "_key_to_index", data)\n            object.__setattr__(self, "_data", key_to_index)\n'), "C55-R4")
+R.mutant("compiled-row-apply-processors-drops-assert", ROW,
+         sub("        proc_size = len(proc)\n        # TODO: would be nice to do this only on the fist row\n        assert len(data) == proc_size\n",
+             "        proc_size = len(proc)\n"), "C55-R4")
+R.mutant("compiled-interim-rows-skips-empty-rows", RES,
+         sub("                        row: object = single_interim_row(rows[i])\n",
+             "                        row: object = single_interim_row(rows[i]) if rows[i] else rows[i]\n"), "C55-R4")
+R.mutant("pure-row-apply-processors-passes-index", ROW,
+         sub("            if p is not None:\n                res[i] = p(res[i])\n        return tuple(res)\n",
+             "            if p is not None:\n                res[i] = p(res[i], i)\n        return tuple(res)\n"), "C55-R4")
+R.mutant("caller-index-list-loses-none-filter", RES,
+         sub("                [i for i, p in enumerate(processors) if p is not None]\n", "                [i for i, p in enumerate(processors)]\n"), "C55-R5")
+R.mutant("compiled-apply-processors-tests-truth-not-none", RES,
+         sub("            p = proc[i]\n            if p is not None:\n                value = p(data[i])\n            else:\n                value = data[i]\n            Py_INCREF(value)\n            PyTuple_SET_ITEM(res, i, value)\n        return res\n\nelse:\n\n    def _apply_processors(\n        proc: _ProcessorsType,\n        proc_size: int,",
+             "            p = proc[i]\n            if callable(p):\n                value = p(data[i])\n            else:\n                value = data[i]\n            Py_INCREF(value)\n            PyTuple_SET_ITEM(res, i, value)\n        return res\n\nelse:\n\n    def _apply_processors(\n        proc: _ProcessorsType,\n        proc_size: int,"), "C55-R5")
+# benign
+R.mutant("benign-pure-apply-processors-local-for-value", RES,
+         sub(_PURE_APPLY,
+             "        out = list(data)\n        for pos in proc_valid:\n            value = out[pos]\n            fn = proc[pos]\n            out[pos] = fn(value)\n        return tuple(out)\n"), None)
+R.mutant("benign-pure-apply-processors-redundant-none-guard", RES,
+         sub(_PURE_APPLY,
+             "        res = list(data)\n        for i in proc_valid:\n            if proc[i] is not None:\n                res[i] = proc[i](res[i])\n        return tuple(res)\n"), None)
+R.mutant("benign-pure-unique-list-empty-fast-path", COLL,
+         sub("    else:\n        return list(dict.fromkeys(seq))\n",
+             "    else:\n        if not seq:\n            return []\n        return list(dict.fromkeys(seq))\n"), None)
+R.mutant("benign-pure-many-rows-explicit-loop", RES,
+         sub("                return [single_row(row) for row in rows]\n",
+             "                out = []\n                for row in rows:\n                    out.append(single_row(row))\n                return out\n"), None)
+R.mutant("benign-compiled-many-rows-local-alias", RES,
+         sub("                    row: object = single_row(rows[i])\n", "                    make = single_row\n                    row: object = make(rows[i])\n"), None)
+R.mutant("benign-caller-index-list-from-generator", RES,
+         sub("            proc_valid = tuple(\n                [i for i, p in enumerate(processors) if p is not None]\n            )\n",
+             "            proc_valid = tuple(\n                pos for pos, fn in enumerate(processors) if fn is not None\n            )\n"), None)
